@@ -283,6 +283,8 @@ class Lib:
                 return obj
         if isinstance(obj, SObj) and obj.cls == "complex" and attr in ("real", "imag"):
             return obj.attrs[attr]
+        if isinstance(obj, LibFn) and obj.name == "set" and attr in ("intersection", "union"):
+            return LibFn("set." + attr)
         if isinstance(obj, (int, Fraction, SInt, SReal)) and not isinstance(obj, bool):
             if attr == "real":
                 return obj
@@ -1240,6 +1242,8 @@ class Lib:
             items = list(x.payload)
         elif isinstance(x, SOpaque) and x.tag in ("symset",):
             return self.sorted_union(interp, x.payload, node)
+        elif isinstance(x, SOpaque) and x.tag == "syminter":
+            return self.sorted_intersection(interp, x.payload, node)
         else:
             items = self.try_iterate_concrete(interp, x, node)
             if items is None:
@@ -1280,6 +1284,78 @@ class Lib:
         ctx.assume(wrap(z3.ForAll([j], z3.Implies(z3.And(0 <= j, j < tz(u.length)), z3.Or(*alts)))))
         u.skolem = {"which": which, "src": src}
         return u
+
+    def f_set__intersection(self, interp, args, kwargs, node):
+        parts = []
+        for a in args:
+            if isinstance(a, SOpaque) and a.tag == "symset":
+                parts.extend(a.payload)
+            elif isinstance(a, SOpaque) and a.tag == "set":
+                parts.append(CList(list(a.payload), "list"))
+            else:
+                interp.err(node, "set.intersection of %r" % (a,))
+        return SOpaque("syminter", parts)
+
+    def sorted_intersection(self, interp, parts, node):
+        """sorted(set.intersection(*sets)) for strictly increasing integer sequences: assumed contract
+             u strictly increasing; every u[j] occurs in every part; every element of part 0 that occurs in all
+             parts occurs in u (skolemised)."""
+        ctx = interp.ctx
+        u = SSeq.fresh("inter", "list", "int")
+        ctx.assume(compare(">=", u.length, 0))
+        ctx.assume(strictly_increasing(u))
+        j = z3.Int(fresh("j"))
+        srcs = []
+        for p in parts:
+            src = z3.Function(fresh("isrc"), z3.IntSort(), z3.IntSort())
+            srcs.append(src)
+            ctx.assume(wrap(z3.ForAll([j], z3.Implies(z3.And(0 <= j, j < tz(u.length)),
+                                                     z3.And(0 <= src(j), src(j) < tz(Len(p)),
+                                                            tz(At(p, SInt(src(j)))) == z3.Select(u.arr, j))))))
+        pos = z3.Function(fresh("ipos"), z3.IntSort(), z3.IntSort())
+        i0 = z3.Int(fresh("i"))
+        others = parts[1:]
+        ivars = [z3.Int(fresh("i")) for _ in others]
+        hyp = [z3.And(0 <= iv, iv < tz(Len(p)), tz(At(p, SInt(iv))) == tz(At(parts[0], SInt(i0)))) for iv, p in zip(ivars, others)]
+        ctx.assume(wrap(z3.ForAll([i0] + ivars, z3.Implies(z3.And(0 <= i0, i0 < tz(Len(parts[0])), *hyp),
+                                                          z3.And(0 <= pos(i0), pos(i0) < tz(u.length),
+                                                                 z3.Select(u.arr, pos(i0)) == tz(At(parts[0], SInt(i0))))))))
+        u.skolem = {"src": srcs, "pos": pos}
+        return u
+
+    def f_np__intersect1d(self, interp, args, kwargs, node):
+        """np.intersect1d(a, b, assume_unique=True, return_indices=True) for strictly increasing integer sequences:
+           assumed contract: (common values ascending, their indices in a, their indices in b)"""
+        a, b = args[0], args[1]
+        if not (kwargs.get("assume_unique") is True and kwargs.get("return_indices") is True):
+            interp.err(node, "np.intersect1d without assume_unique/return_indices")
+        if all(self.try_iterate_concrete(interp, x, node) is not None and
+               all(isinstance(v, int) for v in self.try_iterate_concrete(interp, x, node)) for x in (a, b)):
+            la, lb = self.try_iterate_concrete(interp, a, node), self.try_iterate_concrete(interp, b, node)
+            common = sorted(set(la) & set(lb))
+            return (CList(common, "ndarray", "int"), CList([la.index(c) for c in common], "ndarray", "int"),
+                    CList([lb.index(c) for c in common], "ndarray", "int"))
+        ctx = interp.ctx
+        ia = SSeq.fresh("ia", "ndarray", "int")
+        ib = SSeq(ia.length, z3.Const(fresh("ib"), z3.ArraySort(z3.IntSort(), z3.IntSort())), "ndarray", "int")
+        ctx.assume(compare(">=", ia.length, 0))
+        k, k2 = z3.Int(fresh("k")), z3.Int(fresh("k"))
+        n = tz(ia.length)
+        ctx.assume(wrap(z3.ForAll([k], z3.Implies(z3.And(0 <= k, k < n), z3.And(
+            0 <= z3.Select(ia.arr, k), z3.Select(ia.arr, k) < tz(Len(a)),
+            0 <= z3.Select(ib.arr, k), z3.Select(ib.arr, k) < tz(Len(b)),
+            tz(At(a, SInt(z3.Select(ia.arr, k)))) == tz(At(b, SInt(z3.Select(ib.arr, k)))))))))
+        ctx.assume(wrap(z3.ForAll([k, k2], z3.Implies(z3.And(0 <= k, k < k2, k2 < n), z3.And(
+            z3.Select(ia.arr, k) < z3.Select(ia.arr, k2), z3.Select(ib.arr, k) < z3.Select(ib.arr, k2))))))
+        pos = z3.Function(fresh("cpos"), z3.IntSort(), z3.IntSort())
+        i, j = z3.Int(fresh("i")), z3.Int(fresh("j"))
+        ctx.assume(wrap(z3.ForAll([i, j], z3.Implies(z3.And(0 <= i, i < tz(Len(a)), 0 <= j, j < tz(Len(b)),
+                                                            tz(At(a, SInt(i))) == tz(At(b, SInt(j)))),
+                                                     z3.And(0 <= pos(i), pos(i) < n, z3.Select(ia.arr, pos(i)) == i,
+                                                            z3.Select(ib.arr, pos(i)) == j)))))
+        vals = self.fancy_index(interp, self.f_list(interp, [a], {}, node) if isinstance(a, SRange) else a, ia, node)
+        ia.skolem = {"ib": ib, "pos": pos}
+        return (vals, ia, ib)
 
     def f_filter(self, interp, args, kwargs, node):
         f, xs = args
